@@ -24,6 +24,7 @@ from fractions import Fraction
 from typing import Any
 
 from harness import c05_label as L
+from harness import c16_session as S
 from harness import common
 from harness.common import Run, cq
 
@@ -247,12 +248,14 @@ def is_involution(m: list[int]) -> bool:
     return all(0 <= i < len(m) and m[m[i]] == g for g, i in enumerate(m))
 
 
-def oracle_steady(net: dict, dists: list[dict[str, int]], exts=(Fraction(0), Fraction(1, 2), Fraction(1), Fraction(2))) -> list[tuple[str, str | None]]:
+def oracle_steady(net: dict, dists: list[dict[str, int]], exts=(Fraction(0), Fraction(1, 2), Fraction(1), Fraction(2)), builder=None) -> list[tuple[str, str | None]]:
+    """`builder(net, ext) -> (base, iso, lin)` replaces the three fresh objects of `steady_models` (c16_session: `lin` comes from a
+    LIVE mapper with a history, `iso` from a fresh LabelMapper holding the current counts and maps)."""
     bad: list[tuple[str, str | None]] = []
     fid = None if all(is_involution(m) for m in net["maps"].values()) else "c16-direction"
 
     def build(ext):
-        return L.guarded(lambda: steady_models(net, ext))
+        return L.guarded(lambda: (builder or steady_models)(net, ext))
 
     tag, val = build(1)
     if tag != "ok":
@@ -416,7 +419,11 @@ def check(run: Run) -> None:
         "stream c16-coef): 3 corpus nets + 10 templates with stoichiometric coefficients 2 and 3 on either side (2A->B, A->2B, 2A->B->2C, "
         "2A+B->C, A->2B+C, ->2A, 2A->, 3A->B, 2A<->B, 2A+D->B->C+D), rate arguments interleaved, same maps / distributions; correspondence: random "
         "networks (as for C05) x arbitrary maps incl. malformed x pools/fluxes/external label x initial labels, right-hand sides at "
-        "dyadic states. Non-trivial: at least one mapped reaction; distinct by content"
+        "dyadic states; histories on ONE LinearLabelMapper (own stream c16-session; 3 corpus histories + 60 quick / 400 thorough): build, then 1-3 rounds of "
+        "[a map replaced under its key / edited in place, a label count changed with the maps of the affected reactions, a new maps dict, a new "
+        "counts dict, another steady state] + build; every build judged like a single build (2 one-hot + 2 random distributions) against a fresh "
+        "isotopomer model of the current counts and maps; every build_model call of 40 / 200 histories replayed by lin_session in Coq. "
+        "Non-trivial: at least one mapped reaction (histories: at least one edit and two build steps); distinct by content"
     )
     proofs_ok = run.check_proofs(AREA, PROPS)
     run.assumptions += [
@@ -430,6 +437,9 @@ def check(run: Run) -> None:
         "the keys-only expansion model (fact ExpKeysOnly, lin_rxns_x) is a recognised regression shape: on the tree the fact is ExpDuplicated "
         "and build_linear_x reduces to build_linear, the model of the theorems",
         "binary64 evaluation assumed exact on the dyadic values used (pools are powers of two)",
+        "mapper histories: the caller edits the mapper's two public dicts (item assignment, slice assignment of a map, a new dict with new lists) "
+        "and never puts an old container back; the base model's stoichiometries do not change during a history; the aliased-cache session model "
+        "(fact CacheAliased) is a recognised regression shape, on the tree the fact is CacheNone",
     ]
     rng = common.rng_for(run.seed, "c16")
     known = {f["id"]: f for f in common.load_known_findings(PROP)}
@@ -483,6 +493,46 @@ def check(run: Run) -> None:
     for _ in range(5000 if thorough else 600):
         cases.append(gen_lin_case(rng))
 
+    # (c) histories of operations on ONE LinearLabelMapper (own random stream "c16-session"): edits of the mapper's public label
+    # counts / atom maps between build_model calls; oracle as above against a FRESH isotopomer model of the current values
+    rng3 = common.rng_for(run.seed, "c16-session")
+    sessions = [dict(x) for x in S.SESSION_CORPUS] + [S.gen_lin_session(rng3, gen_steady, gen_coef_steady) for _ in range(400 if thorough else 60)]
+    sdist = {"sessions": 0, "build_steps": 0, "build_model_calls": 0, "edits": 0, "step_kinds": {}, "builds_differing_from_a_fresh_mappers": 0,
+             "mapper_fields_changed_by_build": 0, "sessions_in_coq": 0}
+    sess_cases: list[str] = []
+    sess_index: list[int] = []
+    sess_exts = (Fraction(0), Fraction(1, 2), Fraction(2)) if thorough else (Fraction(0), Fraction(2))
+    for sidx, sess in enumerate(sessions):
+        sbad, slog, safter, sdists, sstats = S.run_lin_session(sess, rng3, oracle_steady, steady_models, gen_distribution, sess_exts)
+        sdist["sessions"] += 1
+        sdist["build_steps"] += sstats["build_steps"]
+        sdist["build_model_calls"] += sstats["builds"]
+        sdist["edits"] += sstats["edits"]
+        sdist["builds_differing_from_a_fresh_mappers"] += sstats["twin_differs"]
+        sdist["mapper_fields_changed_by_build"] += sstats.get("fields_changed", 0)
+        for st in sess["steps"]:
+            sdist["step_kinds"][st[0]] = sdist["step_kinds"].get(st[0], 0) + 1
+        run.count_case(("linsession", sess["net"]["rxns"], sess["net"]["pools"], sess["net"]["lv"], sess["net"]["maps"], sess["steps"]),
+                       nontrivial=sstats["edits"] > 0 and sstats["build_steps"] >= 2)
+        for what, fid in sbad:
+            if fid is not None and fid in known:
+                hits[fid] = hits.get(fid, 0) + 1
+                continue
+            if n_viol < 7:
+                n_viol += 1
+                run.violation(f"LinearLabelMapper vs LabelMapper: {what}", {"kind": "linsession", "session": sess, "dists": sdists})
+        if sstats.get("fields_changed"):
+            run.broken_correspondence.append(f"build_model changed the mapper's label_variables / label_maps to {safter} (the model never writes them): session #{sidx} {sess}")
+        if sdist["sessions_in_coq"] < (200 if thorough else 40):
+            sc = S.coq_lin_session(sess, slog, safter, stoich_of)
+            if sc is None:
+                run.broken_correspondence.append(f"the outcomes of session #{sidx} have no counterpart in the model: {sess}")
+            else:
+                sdist["sessions_in_coq"] += 1
+                sess_cases.append(sc)
+                sess_index.append(sidx)
+    dist["mapper_histories"] = sdist
+
     coq_cases: list[str] = []
     coq_index: list[int] = []
     for idx, case in enumerate(cases):
@@ -514,8 +564,22 @@ def check(run: Run) -> None:
 
     per = 150
     files = {f"c16_{k:04d}": corr_file(chunk) for k, chunk in enumerate(common.chunks(coq_cases, per))}
-    res = common.coq_eval_many(AREA, files, timeout_s=900)
+    sper = 10
+    sfiles = {f"c16s_{k:04d}": S.corr_file(chunk) for k, chunk in enumerate(common.chunks(sess_cases, sper))}
+    res = common.coq_eval_many(AREA, files | sfiles, timeout_s=900)
     mism = 0
+    for k, name in enumerate(sorted(sfiles)):
+        ok, outp = res[name]
+        lists = common.parse_eval_list(outp) if ok else None
+        if not ok or not lists:
+            run.broken_correspondence.append(f"correspondence shard {name} did not evaluate: {outp[-300:]}")
+            continue
+        for j in lists[-1]:
+            mism += 1
+            si = sess_index[k * sper + j]
+            if len(run.broken_correspondence) < 5:
+                run.broken_correspondence.append(f"model/implementation disagree on the history of operations on one mapper #{si}: {sessions[si]}")
+    run.coverage["session_histories_validated_against_impl"] = len(sess_cases) - mism
     for k, name in enumerate(sorted(files)):
         ok, outp = res[name]
         lists = common.parse_eval_list(outp) if ok else None
@@ -527,7 +591,7 @@ def check(run: Run) -> None:
             ci = coq_index[k * per + j]
             if len(run.broken_correspondence) < 5:
                 run.broken_correspondence.append(f"model/implementation disagree on case #{ci}: {_plain(cases[ci])}")
-    run.coverage["traces_validated_against_impl"] = len(coq_cases) - mism
+    run.coverage["traces_validated_against_impl"] = len(coq_cases) + len(sess_cases) - mism
     run.coverage["correspondence_mismatches"] = mism
 
     for fid, f in known.items():
@@ -549,6 +613,16 @@ def _plain(case: dict) -> dict:
 
 def replay(rep: dict) -> int:
     r = rep["replay"]
+    if r.get("kind") == "linsession":
+        known = {f["id"] for f in common.load_known_findings(PROP)}
+        sess = {**r["session"], "net": net_from_json(r["session"]["net"])}
+        bad, _log, _after, _d, _st = S.run_lin_session(sess, common.rng_for(1, "c16-replay"), oracle_steady, steady_models, gen_distribution,
+                                                       (Fraction(0), Fraction(1, 2), Fraction(2)), stored=r.get("dists"))
+        for what, fid in bad:
+            print(("known finding " + str(fid) + ": " if fid in known else "FAILS: ") + what)
+        if not bad:
+            print("property holds on this history")
+        return 1 if [b for b in bad if b[1] not in known] else 0
     if r.get("kind") != "steady":
         print("nothing to replay:", rep.get("what"))
         return 1
